@@ -359,6 +359,19 @@ func treeCase(r *sim.R, k int) {
 			r.StateOps += 2
 			return
 		}
+		// the source may be a section of the destination itself (merged into its parent), or the
+		// destination a section of the source
+		section, intoSection := "", false
+		if t.Chance(1, 6, "merge-within-one-tree") {
+			for _, kk := range a.Keys() {
+				if c := a.D[kk]; c.PureDict() {
+					section, intoSection = kk, t.Bool("parent-into-section")
+					r.Probe("order: merge between a config and one of its own sections")
+					r.Tracef("... the source is the section %q of the destination (parent into section: %v)", kk, intoSection)
+					break
+				}
+			}
+		}
 		schedules(r, k, "Merge", detail, true, func() Outcome {
 			save := r.Order
 			r.Order = sim.OrderSorted
@@ -366,6 +379,26 @@ func treeCase(r *sim.R, k int) {
 			r.Order = save
 			if err != nil {
 				return Outcome{Kind: "create: " + ErrKind(err)}
+			}
+			if section != "" {
+				r.Order = sim.OrderSorted
+				ch, cerr := dst.Child(section, -1, opts...)
+				r.Order = save
+				if cerr != nil {
+					return Outcome{Kind: "child: " + ErrKind(cerr)}
+				}
+				if intoSection {
+					err = ch.Merge(dst, mopts...)
+				} else {
+					err = dst.Merge(ch, mopts...)
+				}
+				if err != nil {
+					return Outcome{Kind: ErrKind(err)}
+				}
+				r.Order = sim.OrderSorted
+				o := unpackOutcome(dst, opts)
+				r.Order = save
+				return o
 			}
 			if err := dst.Merge(src, mopts...); err != nil {
 				return Outcome{Kind: ErrKind(err)}
